@@ -88,7 +88,7 @@ def run_cases(name, header, case_type, checker, cases, shard=300, timeout=900, n
     os.makedirs(RUN, exist_ok=True)
     files = []
     for k in range(0, len(cases), shard):
-        path = os.path.join(RUN, '%s%s_%d.v' % (name, TAG, k // shard))
+        path = os.path.join(RUN, '%s%s_p%d_%d.v' % (name, TAG, os.getpid(), k // shard))   # (unique per process: two runs may overlap)
         with open(path, 'w') as f:
             f.write(header + '\n')
             f.write('Definition cases : list (%s) := [\n' % case_type)
@@ -129,7 +129,7 @@ def run_cases(name, header, case_type, checker, cases, shard=300, timeout=900, n
 def eval_term(name, header, term, timeout=300):
     """vm_compute one term and return Coq's printed answer (for replay files)."""
     os.makedirs(RUN, exist_ok=True)
-    path = os.path.join(RUN, name + TAG + '.v')
+    path = os.path.join(RUN, '%s%s_p%d.v' % (name, TAG, os.getpid()))
     with open(path, 'w') as f:
         f.write(header + '\nEval vm_compute in (%s).\n' % term)
     rc, out, err = _coqc(path, timeout)
